@@ -16,6 +16,7 @@ package mqttproxy
 import (
 	"fmt"
 	"math/rand"
+	"net"
 	"runtime"
 	"strconv"
 	"strings"
@@ -24,11 +25,12 @@ import (
 	"time"
 
 	"github.com/eclipse/paho.mqtt.golang/packets"
+	"github.com/megaease/easegress/pkg/context"
 	"verif.local/kit"
 )
 
 type c16Scn struct {
-	Kind       string `json:"kind"` // reconnect | takeover | stale-delete-event | admin-delete | broker-closed-predecessor | chain
+	Kind       string `json:"kind"` // reconnect | takeover | stale-delete-event | admin-delete | broker-closed-predecessor | slow-disconnect-pipeline | chain
 	OldClean   bool   `json:"old_clean_session"`
 	NewClean   bool   `json:"new_clean_session"`
 	End        string `json:"old_connection_ends_by"` // disconnect | drop | keepalive
@@ -37,6 +39,9 @@ type c16Scn struct {
 	M1QoS      int    `json:"qos_of_probe_on_old_filter"`
 	Admin      bool   `json:"admin_delete_at_end"`
 	Jitter     bool   `json:"jitter"`
+	// Kind "slow-disconnect-pipeline" only: how the BROKER ends the old connection while its
+	// Disconnect pipeline is held open by the harness: "admin-delete" | "takeover"
+	Via string `json:"old_connection_closed_by_broker_via,omitempty"`
 	// Kind "chain" only: a history of 3 or more connections of the one client id (see c16runChain)
 	Chain []c16Conn `json:"chain,omitempty"`
 }
@@ -90,6 +95,9 @@ func (s c16Scn) sig(failure string) string {
 	if kind == "takeover" {
 		kind = "superseded-teardown"
 	}
+	if kind == "slow-disconnect-pipeline" {
+		kind += "(" + s.Via + ")"
+	}
 	return fmt.Sprintf("%s:old=%s,new=%s,%s:%s", kind, c16cp(s.OldClean), c16cp(s.NewClean), s.phase(), failure)
 }
 
@@ -136,6 +144,18 @@ func c16scenarios() []c16Scn {
 				for pt := 1; pt <= 3; pt++ {
 					out = append(out, c16Scn{Kind: "broker-closed-predecessor", OldClean: oc, NewClean: nc, End: end, Point: pt})
 				}
+			}
+		}
+	}
+	// The broker ends the old connection itself (admin delete of its session / takeover by the
+	// new CONNECT) and the Disconnect PIPELINE that Client.close() runs is slow: the harness holds
+	// it open while the same client id (re)connects and subscribes, releases it afterwards, and
+	// only then lets the old socket end.  (new filter = old filter or not, FIN or DISCONNECT packet
+	// on the old socket: drawn per case)
+	for _, oc := range bools {
+		for _, nc := range bools {
+			for _, via := range []string{"admin-delete", "takeover"} {
+				out = append(out, c16Scn{Kind: "slow-disconnect-pipeline", OldClean: oc, NewClean: nc, Via: via, Point: 2})
 			}
 		}
 	}
@@ -263,8 +283,8 @@ func TestVerif_C16_Sessions(t *testing.T) {
 	scns := c16scenarios()
 	nPair := len(scns)
 	scns = append(scns, c16chains()...)
-	r.Rule(fmt.Sprintf("%d scripted schedules for one client id. (a) %d two-connection schedules: {cleanSession old} x {cleanSession new} x {new filter = old filter or not} x {plain reconnect after DISCONNECT / after a silent drop; takeover with the old connection's end (FIN through the relay, or DISCONNECT packet) placed after the new CONNACK / after the new SUBSCRIBE / after the first delivery / never; takeover with the old connection ended by the broker's keep-alive deadline; admin delete; session-delete watch event delayed past the reconnect; predecessor ended BY THE BROKER: its session is deleted through the admin endpoint (delete event delivered and processed, connection closed and deregistered, socket still open so that its read loop lingers), then the new CONNECT (not a takeover for the broker) and the old socket's end (FIN or DISCONNECT packet) placed after the new CONNACK / SUBSCRIBE / first delivery}, a random QoS for the probe on the old filter; after the old teardown has completed a fresh message per filter is published. (b) %d longer session histories (chains): every sequence of three connections {cleanSession}^3 x {ends by DISCONNECT, ends by silent drop, is taken over while open}^2, each connection subscribing a filter of its own; the end of a superseded connection is placed at a drawn point (after the successor's CONNACK / SUBSCRIBE / first judgement / never), and for a taken-over first connection additionally, enumerated, only after the successor's own end (before the next CONNECT) and after the successor's end plus the next connection's SUBSCRIBE; after such a late teardown the stored session of the latest cleanSession=false connection must still hold its subscriptions; additionally, where the first two connections are both cleanSession=false, every such history with the middle connection also UNSUBSCRIBING the first connection's filter after subscribing its own (after a DISCONNECT/drop of the first connection the middle one's session is rebuilt from the stored copy, is changed by an addition and a removal, and is rebuilt from the stored copy again by the third connection, whose expected set differs from what the first connection stored); in the repeats a fourth connection with drawn parameters is inserted at a drawn position in half of the cases and every later connection unsubscribes the oldest inherited filter with probability 1/3; EVERY connection of a chain is judged (books + one fresh message per filter of the history, PINGRESP barrier) against a model of the property sentence: cleanSession=true discards everything earlier, cleanSession=false keeps what the previous session held and what the connection subscribed itself and does not get back what a previous cleanSession=false connection unsubscribed, filters held by a cleanSession=true predecessor of a cleanSession=false connection are left open. All repeated (quick 3x, thorough 200x) with seeded jitter between the steps; distinct = (schedule, symptoms)", len(scns), nPair, len(scns)-nPair))
-	r.Assume("one client id, keepalive 0 except in the keep-alive schedules, no will; delete-watch events are delivered promptly (right after the teardown that caused them, before the next step) except in the stale-delete-event schedules; old cleanSession=true followed by new cleanSession=false: whether the old subscription comes back is left open (counted, not judged); new cleanSession=true while the superseded connection has not been torn down yet: delivery on the old filter is counted, not judged; predecessor ended by an admin delete: whether a cleanSession=false successor gets the deleted session's filter is left open (counted), the broker's other own closes are not generated (the keep-alive deadline ends the read loop itself so nothing lingers; a failed socket write and the watcher re-sync leave the connection registered, which is the takeover schedule); chains: a connection ends only after every Session.store() hand-over has finished or has been PROVEN unable to finish ever (a goroutine created by Session.store still parked in its channel send after a barrier value, sent later through the store loop's channel, has been taken: blocked senders are served FIFO, so it waits on a channel the store loop does not read; no clock involved) - in that case the stored copy is not judged any more, the history simply goes on and the next cleanSession=false reconnect is judged as the property says (signature suffix session-never-persisted-again); an unsubscribed filter must stay silent at later connections only once every earlier connection has been torn down, in the unsubscribing connection itself it is only counted; a superseded connection whose teardown point is 'never' is torn down only after the history has been judged; a discarded filter must stay silent only once every earlier connection has been torn down")
+	r.Rule(fmt.Sprintf("%d scripted schedules for one client id. (a) %d two-connection schedules: {cleanSession old} x {cleanSession new} x {new filter = old filter or not} x {plain reconnect after DISCONNECT / after a silent drop; takeover with the old connection's end (FIN through the relay, or DISCONNECT packet) placed after the new CONNACK / after the new SUBSCRIBE / after the first delivery / never; takeover with the old connection ended by the broker's keep-alive deadline; admin delete; session-delete watch event delayed past the reconnect; predecessor ended BY THE BROKER: its session is deleted through the admin endpoint (delete event delivered and processed, connection closed and deregistered, socket still open so that its read loop lingers), then the new CONNECT (not a takeover for the broker) and the old socket's end (FIN or DISCONNECT packet) placed after the new CONNACK / SUBSCRIBE / first delivery; SLOW DISCONNECT PIPELINE: a broker whose Connect and Disconnect pipelines are handlers the harness can hold open; the old connection is ended BY THE BROKER (admin delete of its session: delete event handed to the watch loop / takeover by the new CONNECT) and the Disconnect pipeline that Client.close() runs is held open while the same client id connects (admin delete: the new CONNECT is sent and its Connect pipeline has been entered while the old Disconnect pipeline is still running; if the broker's registry lock is free meanwhile the CONNACK and the SUBSCRIBE are completed before the release, otherwise the CONNECT is serialised behind the pipeline) and subscribes (takeover: SUBSCRIBE and first delivery while the superseded connection's Disconnect pipeline runs), then the pipeline is released, the broker's handling finishes, the old socket ends (FIN or DISCONNECT packet, drawn) and the survivor is judged as in every schedule}, a random QoS for the probe on the old filter; after the old teardown has completed a fresh message per filter is published. (b) %d longer session histories (chains): every sequence of three connections {cleanSession}^3 x {ends by DISCONNECT, ends by silent drop, is taken over while open}^2, each connection subscribing a filter of its own; the end of a superseded connection is placed at a drawn point (after the successor's CONNACK / SUBSCRIBE / first judgement / never), and for a taken-over first connection additionally, enumerated, only after the successor's own end (before the next CONNECT) and after the successor's end plus the next connection's SUBSCRIBE; after such a late teardown the stored session of the latest cleanSession=false connection must still hold its subscriptions; additionally, where the first two connections are both cleanSession=false, every such history with the middle connection also UNSUBSCRIBING the first connection's filter after subscribing its own (after a DISCONNECT/drop of the first connection the middle one's session is rebuilt from the stored copy, is changed by an addition and a removal, and is rebuilt from the stored copy again by the third connection, whose expected set differs from what the first connection stored); in the repeats a fourth connection with drawn parameters is inserted at a drawn position in half of the cases and every later connection unsubscribes the oldest inherited filter with probability 1/3; EVERY connection of a chain is judged (books + one fresh message per filter of the history, PINGRESP barrier) against a model of the property sentence: cleanSession=true discards everything earlier, cleanSession=false keeps what the previous session held and what the connection subscribed itself and does not get back what a previous cleanSession=false connection unsubscribed, filters held by a cleanSession=true predecessor of a cleanSession=false connection are left open. All repeated (quick 3x, thorough 200x) with seeded jitter between the steps; distinct = (schedule, symptoms)", len(scns), nPair, len(scns)-nPair))
+	r.Assume("one client id, keepalive 0 except in the keep-alive schedules, no will; delete-watch events are delivered promptly (right after the teardown that caused them, before the next step) except in the stale-delete-event schedules; old cleanSession=true followed by new cleanSession=false: whether the old subscription comes back is left open (counted, not judged); new cleanSession=true while the superseded connection has not been torn down yet: delivery on the old filter is counted, not judged; predecessor ended by an admin delete: whether a cleanSession=false successor gets the deleted session's filter is left open (counted), the same holds after the admin delete in the slow-Disconnect-pipeline schedules; a pipeline of the harness is held only between two observed steps and is always released (also when the case ends early); while the Disconnect pipeline is held the harness does not call anything that needs the broker's registry lock (it only probes it with TryRLock to decide whether the CONNACK can be awaited before the release; not a verdict); the broker's other own closes are not generated (the keep-alive deadline ends the read loop itself so nothing lingers; a failed socket write and the watcher re-sync leave the connection registered, which is the takeover schedule); chains: a connection ends only after every Session.store() hand-over has finished or has been PROVEN unable to finish ever (a goroutine created by Session.store still parked in its channel send after a barrier value, sent later through the store loop's channel, has been taken: blocked senders are served FIFO, so it waits on a channel the store loop does not read; no clock involved) - in that case the stored copy is not judged any more, the history simply goes on and the next cleanSession=false reconnect is judged as the property says (signature suffix session-never-persisted-again); an unsubscribed filter must stay silent at later connections only once every earlier connection has been torn down, in the unsubscribing connection itself it is only counted; a superseded connection whose teardown point is 'never' is torn down only after the history has been judged; a discarded filter must stay silent only once every earlier connection has been torn down")
 	reps := r.N(3, 200)
 	n := len(scns) * reps
 	for i := 0; i < n; i++ {
@@ -272,7 +292,9 @@ func TestVerif_C16_Sessions(t *testing.T) {
 			continue
 		}
 		rng := r.CaseRand(i)
-		s := scns[i%len(scns)]
+		// every repeat runs every schedule once; the order is rotated by one per repeat so that the
+		// few long schedules (keep-alive deadline: 3 s) do not land in the same shard every time
+		s := scns[(i+i/len(scns))%len(scns)]
 		s.Jitter = i >= len(scns)
 		if s.Kind == "chain" {
 			s = c16chainDraw(rng, s, s.Jitter && rng.Intn(2) == 0)
@@ -283,6 +305,11 @@ func TestVerif_C16_Sessions(t *testing.T) {
 		s.M1QoS = rng.Intn(2)
 		if s.Kind == "broker-closed-predecessor" {
 			s.SameFilter = rng.Intn(2) == 0
+		}
+		if s.Kind == "slow-disconnect-pipeline" {
+			s.SameFilter = rng.Intn(2) == 0
+			s.End = []string{"disconnect", "drop"}[rng.Intn(2)]
+			s.Admin = rng.Intn(3) == 0
 		}
 		if s.Kind == "takeover" || s.Kind == "reconnect" {
 			s.Admin = rng.Intn(4) == 0
@@ -302,6 +329,11 @@ func TestVerif_C16_Sessions(t *testing.T) {
 	r.Require("broker_closed_predecessor_deregistered_and_lingering", 1)
 	r.Require("broker_closed_predecessor_survivor_judged_after_old_teardown", 1)
 	r.Require("broker_closed_predecessor_survivor_delivery_and_qos1_redelivery_seen_after_old_teardown", 1)
+	// broker-initiated end of the predecessor (admin delete / takeover) with a slow Disconnect pipeline
+	r.Require("slow_disconnect_pipeline:reconnect_CONNECT_handled_while_predecessors_disconnect_pipeline_was_running", 1)
+	r.Require("slow_disconnect_pipeline:takeover_connection_subscribed_while_predecessors_disconnect_pipeline_was_running", 1)
+	r.Require("slow_disconnect_pipeline:survivor_judged_after_release_and_old_teardown", 1)
+	r.Require("slow_disconnect_pipeline:survivor_delivery_and_qos1_redelivery_seen_after_release_and_old_teardown", 1)
 	// chains: the monitor must have judged reconnects deep in a history, for every kind of clause
 	r.Require("chain_connections_judged", 1)
 	r.Require("chain_third_or_later_connection_judged", 1)
@@ -331,7 +363,14 @@ func c16run(r *kit.Run, rng *rand.Rand, s c16Scn, first bool) {
 	if s.SameFilter {
 		f2, t2 = f1, t1
 	}
-	rb, err := c15rigNewBroker(c15rigBrokerOpts{})
+	var rb *c15rigBroker
+	var conGate, disGate *c16gate // only with the gated pipelines
+	var err error
+	if s.Kind == "slow-disconnect-pipeline" {
+		rb, conGate, disGate, err = c16newGatedBroker()
+	} else {
+		rb, err = c15rigNewBroker(c15rigBrokerOpts{})
+	}
 	if err != nil {
 		r.Inconclusive("broker did not start: " + err.Error())
 		return
@@ -437,6 +476,11 @@ func c16run(r *kit.Run, rng *rand.Rand, s c16Scn, first bool) {
 		return n > 0, st
 	}
 	defer func() {
+		if disGate != nil {
+			// whatever happened: nothing of the broker stays parked in a pipeline of the harness
+			conGate.release()
+			disGate.release()
+		}
 		emit()
 		r.Cover(fmt.Sprintf("schedule:%s/at=%s/%s/same=%v/admin=%v/inconclusive=%v/symptoms=%v", s.sig(""), c16pointName[s.Point], s.End, s.SameFilter, s.Admin, inconclusive, symptoms))
 		if len(symptoms) > 0 {
@@ -601,63 +645,226 @@ func c16run(r *kit.Run, rng *rand.Rand, s c16Scn, first bool) {
 		return
 	}
 
-	// ---- new connection
-	jit()
-	b, lb, err = relay.dial(cid)
-	if err != nil {
-		inc("dial: " + err.Error())
-		return
-	}
-	if rc, st := b.connect(s.NewClean, 0); st != "ok" || rc != 0 {
-		bad("new-connection-refused", map[string]interface{}{"state": st, "rc": rc})
-		return
-	}
-	step("new: CONNECT clean=%v accepted", s.NewClean)
-	if s.End == "keepalive" {
-		tornDown := false
-		select {
-		case <-la.upClosed:
-			tornDown = true
-		default:
+	dead := false
+	// ---- slow Disconnect pipeline: the broker itself ends the old connection (admin delete of its
+	// session / takeover) and the Disconnect pipeline run by Client.close() is held open by the
+	// harness while the same client id connects again and subscribes; it is released afterwards and
+	// only then the old socket ends.  The survivor is judged like in every other schedule.
+	slowPipeline := func() bool {
+		subscribeNew := func() bool {
+			if st := b.subscribe([]string{f2}, []byte{1}); st != "ok" {
+				if st == "watchdog" {
+					inc("watchdog: new SUBACK")
+				} else {
+					bad("survivor-connection-closed", map[string]interface{}{"at": "SUBSCRIBE", "state": st})
+				}
+				return false
+			}
+			step("new: SUBSCRIBE %s", f2)
+			return true
 		}
-		if tornDown || rb.store.heldCount() > 0 {
-			// the old connection's teardown was already under way when the new CONNECT was answered
-			kaEarly()
+		firstDelivery := func() bool {
+			pl, ok := inject(t2, 1)
+			if !ok {
+				return false
+			}
+			got, st := has(b, pl)
+			switch {
+			case st == "watchdog":
+				return false
+			case st != "ok":
+				dead = true
+			case !got:
+				bad("new-subscription-delivery-missed", map[string]interface{}{"at": "first delivery", "payload": pl})
+			default:
+				step("new: first delivery on %s received", t2)
+			}
+			return true
+		}
+		var err error
+		jit()
+		disGate.arm()
+		switch s.Via {
+		case "takeover":
+			b, lb, err = relay.dial(cid)
+			if err != nil {
+				inc("dial: " + err.Error())
+				return false
+			}
+			if rc, st := b.connect(s.NewClean, 0); st != "ok" || rc != 0 {
+				bad("new-connection-refused", map[string]interface{}{"state": st, "rc": rc})
+				return false
+			}
+			step("new: CONNECT clean=%v accepted (takeover: the broker closes the old connection)", s.NewClean)
+			if !disGate.wait(func(e, _ int) bool { return e >= 1 }) {
+				inc("watchdog: Disconnect pipeline of the superseded connection not entered")
+				return false
+			}
+			step("old: being closed by the broker; its Disconnect pipeline is running and is held open")
+			jit()
+			if !subscribeNew() {
+				return false
+			}
+			r.Count("slow_disconnect_pipeline:takeover_connection_subscribed_while_predecessors_disconnect_pipeline_was_running", 1)
+			if !firstDelivery() {
+				return false
+			}
+			jit()
+			disGate.release()
+			if !disGate.wait(func(e, x int) bool { return x >= e }) {
+				inc("watchdog: Disconnect pipeline did not return")
+				return false
+			}
+			step("old: Disconnect pipeline released and finished")
+		case "admin-delete":
+			if code := rb.httpDeleteSession(cid); code != 200 {
+				bad(fmt.Sprintf("admin-delete-rejected-%d", code), nil)
+				return false
+			}
+			// hand the delete event to the broker's watch loop WITHOUT waiting for its handling to finish
+			if _, ok := rb.store.flush(rb.b.done); !ok {
+				inc("watchdog: delete-watch hand-over")
+				return false
+			}
+			if !disGate.wait(func(e, _ int) bool { return e >= 1 }) {
+				inc("watchdog: Disconnect pipeline not entered after the admin delete")
+				return false
+			}
+			step("admin: DELETE session %s, watch event delivered; the broker is closing the old connection, its Disconnect pipeline is running and is held open", cid)
+			jit()
+			conGate.arm()
+			b, lb, err = relay.dial(cid)
+			if err != nil {
+				inc("dial: " + err.Error())
+				return false
+			}
+			if err := c16sendConnect(b, s.NewClean); err != nil {
+				inc("write CONNECT: " + err.Error())
+				return false
+			}
+			if !conGate.wait(func(e, _ int) bool { return e >= 1 }) {
+				inc("watchdog: Connect pipeline of the new connection not entered")
+				return false
+			}
+			r.Count("slow_disconnect_pipeline:reconnect_CONNECT_handled_while_predecessors_disconnect_pipeline_was_running", 1)
+			step("new: CONNECT clean=%v is being handled by the broker (its Connect pipeline has been entered) while the old connection's Disconnect pipeline is still running", s.NewClean)
+			conGate.release()
+			// Is the broker's registry lock held for as long as the Disconnect pipeline runs?  Then the
+			// CONNECT cannot be answered before the release (it is serialised behind the pipeline) and
+			// waiting for the CONNACK here would never end; otherwise the CONNACK is due now.
+			free := false
+			for i := 0; i < 50 && !free; i++ {
+				if rb.b.TryRLock() {
+					rb.b.RUnlock()
+					free = true
+				} else {
+					time.Sleep(200 * time.Microsecond)
+				}
+			}
+			connacked := false
+			waitConnack := func() bool {
+				rc, st := c16waitConnack(b)
+				if st == "watchdog" {
+					inc("watchdog: CONNACK")
+					return false
+				}
+				if st != "ok" || rc != 0 {
+					bad("new-connection-refused", map[string]interface{}{"state": st, "rc": rc})
+					return false
+				}
+				connacked = true
+				step("new: CONNECT accepted")
+				return true
+			}
+			if free {
+				if !waitConnack() || !subscribeNew() {
+					return false
+				}
+				r.Count("slow_disconnect_pipeline:reconnect_completed_and_subscribed_while_predecessors_disconnect_pipeline_was_running", 1)
+				step("new: connected and subscribed while the old connection's Disconnect pipeline was still running")
+			} else {
+				r.Count("slow_disconnect_pipeline:reconnect_serialised_behind_predecessors_disconnect_pipeline(broker lock held by its runner)", 1)
+				step("new: the broker's registry lock is held while the Disconnect pipeline runs, the CONNECT waits for it")
+			}
+			jit()
+			disGate.release()
+			if !disGate.wait(func(e, x int) bool { return x >= e }) || !c15rigQuiesce("(*Broker).watchDelete") {
+				inc("watchdog: handling of the delete event did not finish")
+				return false
+			}
+			step("old: Disconnect pipeline released; the broker has finished handling the delete event")
+			if !connacked && (!waitConnack() || !subscribeNew()) {
+				return false
+			}
+			if !firstDelivery() {
+				return false
+			}
+		}
+		// only now the old socket ends
+		return endOld()
+	}
+	if s.Kind == "slow-disconnect-pipeline" {
+		if !slowPipeline() {
 			return
 		}
-	}
-	if s.Point == 1 && !endOld() {
-		return
-	}
-	if st := b.subscribe([]string{f2}, []byte{1}); st != "ok" {
-		if st == "watchdog" {
-			inc("watchdog: new SUBACK")
-		} else {
-			bad("survivor-connection-closed", map[string]interface{}{"at": "SUBSCRIBE", "state": st})
-		}
-		return
-	}
-	step("new: SUBSCRIBE %s", f2)
-	if s.Point == 2 && !endOld() {
-		return
-	}
-	dead := false
-	if pl, ok := inject(t2, 1); !ok {
-		return
-	} else if got, st := has(b, pl); st == "watchdog" {
-		return
-	} else if st != "ok" {
-		dead = true
-	} else if !got {
-		bad("new-subscription-delivery-missed", map[string]interface{}{"at": "first delivery", "payload": pl})
 	} else {
-		step("new: first delivery on %s received", t2)
-	}
-	if s.Point == 3 && !endOld() {
-		return
-	}
-	if s.Point == 5 && !endOld() {
-		return
+		// ---- new connection
+		jit()
+		b, lb, err = relay.dial(cid)
+		if err != nil {
+			inc("dial: " + err.Error())
+			return
+		}
+		if rc, st := b.connect(s.NewClean, 0); st != "ok" || rc != 0 {
+			bad("new-connection-refused", map[string]interface{}{"state": st, "rc": rc})
+			return
+		}
+		step("new: CONNECT clean=%v accepted", s.NewClean)
+		if s.End == "keepalive" {
+			tornDown := false
+			select {
+			case <-la.upClosed:
+				tornDown = true
+			default:
+			}
+			if tornDown || rb.store.heldCount() > 0 {
+				// the old connection's teardown was already under way when the new CONNECT was answered
+				kaEarly()
+				return
+			}
+		}
+		if s.Point == 1 && !endOld() {
+			return
+		}
+		if st := b.subscribe([]string{f2}, []byte{1}); st != "ok" {
+			if st == "watchdog" {
+				inc("watchdog: new SUBACK")
+			} else {
+				bad("survivor-connection-closed", map[string]interface{}{"at": "SUBSCRIBE", "state": st})
+			}
+			return
+		}
+		step("new: SUBSCRIBE %s", f2)
+		if s.Point == 2 && !endOld() {
+			return
+		}
+		if pl, ok := inject(t2, 1); !ok {
+			return
+		} else if got, st := has(b, pl); st == "watchdog" {
+			return
+		} else if st != "ok" {
+			dead = true
+		} else if !got {
+			bad("new-subscription-delivery-missed", map[string]interface{}{"at": "first delivery", "payload": pl})
+		} else {
+			step("new: first delivery on %s received", t2)
+		}
+		if s.Point == 3 && !endOld() {
+			return
+		}
+		if s.Point == 5 && !endOld() {
+			return
+		}
 	}
 	if s.Kind == "stale-delete-event" {
 		jit()
@@ -671,9 +878,13 @@ func c16run(r *kit.Run, rng *rand.Rand, s c16Scn, first bool) {
 	}
 
 	// ---- judgement: the surviving connection and the broker's books
-	expectPrev := !s.OldClean && !s.NewClean && s.Kind != "broker-closed-predecessor" // after an admin delete of the session the property does not say
+	adminDeleted := s.Kind == "broker-closed-predecessor" || (s.Kind == "slow-disconnect-pipeline" && s.Via == "admin-delete")
+	expectPrev := !s.OldClean && !s.NewClean && !adminDeleted // after an admin delete of the session the property does not say
 	if s.Kind == "broker-closed-predecessor" && oldDown {
 		r.Count("broker_closed_predecessor_survivor_judged_after_old_teardown", 1)
+	}
+	if s.Kind == "slow-disconnect-pipeline" && oldDown {
+		r.Count("slow_disconnect_pipeline:survivor_judged_after_release_and_old_teardown", 1)
 	}
 	reg, sess := rb.registered(cid)
 	switch {
@@ -758,6 +969,9 @@ func c16run(r *kit.Run, rng *rand.Rand, s c16Scn, first bool) {
 				if s.Kind == "broker-closed-predecessor" && oldDown {
 					r.Count("broker_closed_predecessor_survivor_delivery_and_qos1_redelivery_seen_after_old_teardown", 1)
 				}
+				if s.Kind == "slow-disconnect-pipeline" && oldDown {
+					r.Count("slow_disconnect_pipeline:survivor_delivery_and_qos1_redelivery_seen_after_release_and_old_teardown", 1)
+				}
 			}
 			_, ids := b.copies(pl)
 			if len(ids) > 0 {
@@ -792,6 +1006,10 @@ func c16run(r *kit.Run, rng *rand.Rand, s c16Scn, first bool) {
 			r.Count("broker_closed_predecessor:persistent_successor_got_old_filter_of_admin_deleted_session(not judged)", 1)
 		case s.Kind == "broker-closed-predecessor":
 			r.Count("broker_closed_predecessor:persistent_successor_old_filter_silent(not judged)", 1)
+		case adminDeleted && got:
+			r.Count("slow_disconnect_pipeline:persistent_successor_got_old_filter_of_admin_deleted_session(not judged)", 1)
+		case adminDeleted:
+			r.Count("slow_disconnect_pipeline:persistent_successor_old_filter_silent(not judged)", 1)
 		case got:
 			r.Count("old_clean_new_persistent:old_filter_delivered(not judged)", 1)
 		default:
@@ -1597,4 +1815,162 @@ func c16unsubscribe(c *c15rigClient, filters []string) string {
 		return "eof"
 	}
 	return "watchdog"
+}
+
+// ---------------------------------------------------------------------------- gated pipelines
+//
+// A broker whose Connect and Disconnect pipelines are handlers of the harness that can be held
+// open ("a slow pipeline"): Client.close() runs the Disconnect pipeline, so holding it stretches
+// the broker-initiated end of a connection (admin delete, takeover) for as long as the harness
+// wants, and the Connect pipeline tells the harness that the broker is handling a CONNECT.
+
+type c16gate struct {
+	mu      sync.Mutex
+	hold    bool
+	entered int // handler invocations that found the gate held
+	exited  int // of those, the ones that have returned
+	wake    chan struct{}
+}
+
+func c16newGate() *c16gate { return &c16gate{wake: make(chan struct{})} }
+
+func (g *c16gate) signal() {
+	close(g.wake)
+	g.wake = make(chan struct{})
+}
+
+func (g *c16gate) Handle(ctx *context.Context) string {
+	g.mu.Lock()
+	if g.hold {
+		g.entered++
+		g.signal()
+		for g.hold {
+			w := g.wake
+			g.mu.Unlock()
+			<-w
+			g.mu.Lock()
+		}
+		g.exited++
+		g.signal()
+	}
+	g.mu.Unlock()
+	return ""
+}
+
+func (g *c16gate) arm() {
+	g.mu.Lock()
+	g.hold = true
+	g.mu.Unlock()
+}
+
+func (g *c16gate) release() {
+	g.mu.Lock()
+	if g.hold {
+		g.hold = false
+		g.signal()
+	}
+	g.mu.Unlock()
+}
+
+// wait blocks until pred(entered, exited) holds; false = watchdog
+func (g *c16gate) wait(pred func(entered, exited int) bool) bool {
+	t := time.NewTimer(c15rigWatchdog)
+	defer t.Stop()
+	for {
+		g.mu.Lock()
+		ok := pred(g.entered, g.exited)
+		w := g.wake
+		g.mu.Unlock()
+		if ok {
+			return true
+		}
+		select {
+		case <-w:
+		case <-t.C:
+			return false
+		}
+	}
+}
+
+const (
+	c16connectGateName    = "c16-connect-pipeline"
+	c16disconnectGateName = "c16-disconnect-pipeline"
+)
+
+type c16mapper struct {
+	pipe     *c15rigPipe
+	handlers map[string]context.Handler
+}
+
+func (m *c16mapper) GetHandler(name string) (context.Handler, bool) {
+	if name == c15rigPipeName {
+		return m.pipe, true
+	}
+	h, ok := m.handlers[name]
+	return h, ok
+}
+
+// c16newGatedBroker: the rig's broker (same storage wrapper, same recording publish pipeline) plus
+// gated Connect and Disconnect pipelines.
+func c16newGatedBroker() (rb *c15rigBroker, connectGate, disconnectGate *c16gate, err error) {
+	pipe := &c15rigPipe{}
+	store := c15rigNewStore()
+	connectGate, disconnectGate = c16newGate(), c16newGate()
+	spec := &Spec{
+		Name:   "c15rig",
+		EGName: "c15rig-eg",
+		Port:   0,
+		Rules: []*Rule{
+			{When: &When{PacketType: Publish}, Pipeline: c15rigPipeName},
+			{When: &When{PacketType: Connect}, Pipeline: c16connectGateName},
+			{When: &When{PacketType: Disconnect}, Pipeline: c16disconnectGateName},
+		},
+	}
+	mapper := &c16mapper{pipe: pipe, handlers: map[string]context.Handler{c16connectGateName: connectGate, c16disconnectGateName: disconnectGate}}
+	var b *Broker
+	for try := 0; try < 8 && b == nil; try++ {
+		if try > 0 {
+			time.Sleep(time.Duration(try) * 5 * time.Millisecond)
+		}
+		b = newBroker(spec, store, mapper, func(string, string) ([]string, error) { return nil, nil })
+	}
+	if b == nil {
+		return nil, nil, nil, fmt.Errorf("newBroker returned nil 8 times (listener could not be bound)")
+	}
+	ta, ok := b.listener.Addr().(*net.TCPAddr)
+	if !ok {
+		b.close()
+		return nil, nil, nil, fmt.Errorf("listener address %v", b.listener.Addr())
+	}
+	return &c15rigBroker{b: b, store: store, pipe: pipe, addr: fmt.Sprintf("127.0.0.1:%d", ta.Port)}, connectGate, disconnectGate, nil
+}
+
+// c16sendConnect writes the CONNECT packet only; c16waitConnack waits for the answer.
+func c16sendConnect(c *c15rigClient, clean bool) error {
+	p := packets.NewControlPacket(packets.Connect).(*packets.ConnectPacket)
+	p.ProtocolName, p.ProtocolVersion = "MQTT", 4
+	p.CleanSession = clean
+	p.Keepalive = 0
+	p.ClientIdentifier = c.cid
+	return c.write(p)
+}
+
+func c16waitConnack(c *c15rigClient) (rc byte, st string) {
+	got := false
+	ok := c.waitFor(func(ev []c15rigEvt, eof bool) bool {
+		for _, e := range ev {
+			if e.Type == packets.Connack {
+				rc, got = e.RC, true
+				return true
+			}
+		}
+		return eof
+	}, c15rigWatchdog)
+	switch {
+	case got:
+		return rc, "ok"
+	case ok:
+		return 0, "eof"
+	}
+	return 0, "watchdog"
 }
